@@ -428,7 +428,33 @@ func (h *hist) opRefresh() {
 
 func (h *hist) opRefresh0() {
 	h.actor = h.withAlloc()
+	many := false
+	if a, st := h.m.Alloc(h.actor); a != nil && st == sim.Live && !a.TCP && h.rng.Intn(3) == 0 {
+		// an allocation that goes with three to five channels (and their permissions) on it:
+		// everything goes with it, at once
+		seen := map[string]bool{}
+		for i, n := 0, 3+h.rng.Intn(3); i < 12 && len(seen) < n; i++ {
+			p := h.peerForFamily(h.actor)
+			if seen[p.Addr.String()] {
+				continue
+			}
+			seen[p.Addr.String()] = true
+			num := uint16(0x4000 + h.rng.Intn(16))
+			if r := h.m.ChannelBind(h.actor, num, p.Addr); r != nil && r.Class == wire.ClassSuccess {
+				h.usedNums[h.actor] = append(h.usedNums[h.actor], num)
+			}
+		}
+		many = true
+	}
 	h.m.Refresh(h.actor, sim.U32(0))
+	if many {
+		// ... and nothing of it is heard of later (the channel timeout passes)
+		h.w.Sleep(h.m.ChanTO + time.Second)
+		h.m.Audit(nil)
+		h.m.CrossCheck()
+		h.rec.FP("refresh0/with-many-channels")
+		h.actor = nil // (time has passed: the no-cross-effect comparison of this step does not apply)
+	}
 }
 
 func (h *hist) opCreatePerm() {
